@@ -57,6 +57,7 @@ def run(ctx, prop, n=None):
     ctx.cov["evaluations"] = len(rows)
     ctx.notes["events"] = len(rows)
     ctx.notes["scenarios_rejected_any_property"] = len(rej)
+    ctx.notes["rejection_reasons_any_property"] = sorted({why for _, _, why, _ in rej})
     ctx.notes["event_counts"] = {}
     for r in rows:
         ctx.notes["event_counts"][r["ev"]] = ctx.notes["event_counts"].get(r["ev"], 0) + 1
